@@ -436,7 +436,15 @@ Definition jparse_eqb (a b : jparse) : bool :=
 
 Definition flavour_of (e : env) : flavour := match e with EHttp _ _ => StdJson | EWs _ _ _ => StdJson end.
 
+(** roles of a submission inside a per-connection history: "setup" only builds the history (a
+    subscription that stays active, the client's stop) and is not judged; "held-sub" is a start /
+    subscribe of a SUBSCRIPTION whose id is held by an uncompleted subscription: HandleStart drops it
+    ([handle_start] with [subscribed = true]: no frame, nothing executed) *)
+Definition is_setup (s : sub) : bool := String.eqb (s_role s) "setup".
+Definition is_held_sub (s : sub) : bool := String.eqb (s_role s) "held-sub".
+
 Definition oracle_sub (J : jtable) (T : ntable) (s : esub) : option sexp :=
+  if is_setup s then None else
   if negb (forallb (fun t => forallb (fun tok => match num_find T tok with Some _ => true | None => false end)
                                      (num_tokens (List.length t) t)) (s_raw s :: needed_texts (s_env s))) then
     Some (v_bad "number-table-incomplete")
@@ -450,9 +458,17 @@ Definition oracle_sub (J : jtable) (T : ntable) (s : esub) : option sexp :=
   else None.
 
 (** model against implementation on one submission *)
+Definition dropped (o : obs) : bool :=
+  match ob_kind o with KIgnored => true | _ => false end && nothing_executed o &&
+  match ob_wire o with WoWs [] _ => true | WoNone => true | _ => false end.
+
 Definition check_sub (T : ntable) (o : op) (s : esub) : option sexp :=
   let m := e_model s in
-  if negb (dec_agrees m (s_dec s)) then
+  if is_setup s then None
+  else if is_held_sub s then
+    if dec_agrees m (s_dec s) && forallb dropped (s_obs s) then None
+    else Some (v_mismatch ("held-id:" ++ name_of s) [])
+  else if negb (dec_agrees m (s_dec s)) then
     Some (v_mismatch ("decoder:" ++ name_of s) [])
   else if negb (forallb (api_agrees m) (s_obs s)) then
     Some (v_mismatch ("outcome:" ++ name_of s) [])
@@ -492,7 +508,7 @@ Fixpoint entries (T : ntable) (i : nat) (ss : list esub) : list entry :=
   | [] => []
   | s :: r =>
       List.app
-        match accepted_op (e_model s) with
+        match (if is_setup s || is_held_sub s then None else accepted_op (e_model s)) with
         | Some o => map (fun ob => {| en_name := name_of s; en_sub := i; en_op := o; en_pq := pq_key (e_model s); en_obs := ob |}) (s_obs s)
         | None => []
         end
@@ -581,6 +597,9 @@ Definition classes (T : ntable) (o : op) (is_sub : bool) (ss : list esub) : list
     (if is_empty (o_opname o) then [] else ["with-opname"]);
     (if alias_same then ["alias-same-op"] else []); (if alias_other then ["alias-other-op"] else []);
     (if text_diverges then ["same-text-other-op"] else []);
+    (if existsb (fun s : esub => is_held_sub s) ss then ["id-held-by-active-subscription"] else []);
+    (if existsb (fun s : esub => String.eqb (s_label s) "reuse-id" || String.eqb (s_label s) "reuse-id-after-client-complete") ss then ["id-reused"] else []);
+    (if existsb (fun s : esub => match s_env s with EHttp _ true => true | _ => false end) ss then ["body-ends-early"] else []);
     (if http_refused then ["refused-http"] else []); (if ws_refused then ["refused-ws"] else []);
     (if executed || http_refused || ws_refused then ["nontrivial"] else []) ].
 
